@@ -780,6 +780,70 @@ def conseq_instance(fname, nums, want=None):
     return n, oos, None, None
 
 
+def run_recollect(fnames, tier):
+    """History: the tables and caches follow the *current* input.  Input A is
+    queried completely; input B is A with the width numeral of the first
+    bit-vector declaration changed by a substitution, so B shares all other
+    node objects (and their ids) with A.  After collect_information(B) every
+    shared node must give what a freshly parsed copy of B gives."""
+    import time
+    from ddsmt import smtlib, nodeio, nodes
+    from ddsmt.nodes import Node
+    _conseq_options()
+    t0 = time.time()
+    n = nsc = 0
+    bad = None
+    for fname in fnames:
+        for nums in CONSEQ_NUMS[:2]:
+            try:
+                A = _conseq_script(fname, nums, False)
+            except Exception:
+                continue
+            target = None
+            for e in A:
+                if e.has_ident() and e.get_ident() == 'declare-const' and \
+                        len(e) == 3 and not e[2].is_leaf() and len(e[2]) == 3 \
+                        and e[2][1] == 'BitVec':
+                    target = e[2][2]
+                    break
+            if target is None:
+                continue
+            nsc += 1
+            smtlib.collect_information(A)
+            for x in nodes.dfs(A):
+                smtlib.get_sort(x)
+                smtlib.get_bv_width(x)
+            B = nodes.substitute(A, {target.id: Node(str(int(target.data) + 1))})
+            fresh = list(nodeio.parse_smtlib(nodeio.write_smtlib_to_str(B)))
+            smtlib.collect_information(B)
+            for shared, new in zip(nodes.dfs(B), nodes.dfs(fresh)):
+                n += 1
+                try:
+                    w1, w2 = smtlib.get_bv_width(shared), smtlib.get_bv_width(new)
+                    s1, s2 = smtlib.get_sort(shared), smtlib.get_sort(new)
+                except Exception:
+                    continue
+                if w1 != w2 or (s1 is None) != (s2 is None) or (
+                        s1 is not None and s1.__str__() != s2.__str__()):
+                    if bad is None:
+                        bad = ({'family': fname, 'nums': list(nums)},
+                               f'after the declaration changed to width '
+                               f'{int(target.data) + 1} and '
+                               f'collect_information ran again, '
+                               f'{shared.__str__()[:60]} still has width {w1} '
+                               f'/ sort {s1.__str__() if s1 else None} '
+                               f'(fresh copy: {w2} / '
+                               f'{s2.__str__() if s2 else None}) in family '
+                               f'{fname}')
+    return {'status': 'VIOLATED' if bad else ('CONFIRMED' if n else 'VACUOUS'),
+            'cex': bad[0] if bad else None,
+            'exc': {'type': 'Violation', 'msg': bad[1]} if bad else None,
+            'paths': n, 'paths_ok': n, 'solver_checks': 0,
+            'solver_seconds': 0.0, 'samples': [{'scripts': nsc}],
+            'wall_s': round(time.time() - t0, 2),
+            'note': 'concrete two-input histories (auxiliary)'}
+
+
 def _conseq_options():
     from ddsmt import options, mutators, cli
     setattr(options, '__PARSED_ARGS', options.parse_options(
@@ -1078,6 +1142,9 @@ def partitions(tier):
                       'run': (lambda chunk=chunk: run_sig(chunk, tier)),
                       'budget_s': 900, 'bounds': {'operators': len(chunk)}})
     names = list(FAMS)
+    parts.append({'name': 'recollect', 'kind': 'native',
+                  'run': (lambda: run_recollect(list(FAMS), tier)),
+                  'budget_s': 300})
     nch = 14
     for k in range(nch):
         chunk = names[k::nch]
@@ -1088,6 +1155,9 @@ def partitions(tier):
 
 
 def replay(part, cex):
+    if part == 'recollect':
+        r = run_recollect([cex['family']], 'quick')
+        return r['exc']['msg'] if r['exc'] else None
     if part.startswith('sig_'):
         r = run_sig(sig_operators(), 'thorough', cex['term'])
         return r['exc']['msg'] if r['exc'] else None
